@@ -1,6 +1,7 @@
 package dht
 
 import (
+	"context"
 	"net"
 
 	"github.com/anacrolix/dht/v2/krpc"
@@ -152,4 +153,74 @@ func VerifC01_MustFail() {
 	v := verifStartServer(verifSrvOpt{noSecurity: true})
 	verifStillServes(v, "twin")
 	verifAssert(len(v.sock.sent) == 0, "twin: the fresh ping is not answered (must fail)")
+}
+
+// Hostile replies to the node's own in-flight queries: any subset of response fields present,
+// absent or of the wrong kind, from the queried address with the right transaction id. The reply
+// consumers (Query tail, GetPeers/FindNode/Ping/Get tails, TraversalQueryResult) must survive them.
+func verifHostileReply(v *verifSrv, t string, full bool) krpc.Msg {
+	m := krpc.Msg{T: t}
+	m.Y = []string{"r", "e", "x", ""}[verifChoice(0, 3)]
+	if verifNondetBool() {
+		r := &krpc.Return{ID: verifPeerID(v.id, []int{0}, true)}
+		if verifNondetBool() {
+			tok := verifSymString(verifChoice(0, 1) * 4)
+			r.Token = &tok
+		}
+		if full && verifNondetBool() {
+			sq := verifNondetI64()
+			r.Seq = &sq
+		}
+		if full && verifNondetBool() {
+			r.Nodes = krpc.CompactIPv4NodeInfo{{ID: verifIDInBucket(v.id, 1), Addr: krpc.NodeAddr{IP: verifIP4(), Port: verifPort()}}}
+		}
+		if full && verifNondetBool() {
+			r.Values = []krpc.NodeAddr{{IP: verifIP4(), Port: verifPort()}}
+		}
+		m.R = r
+	}
+	if verifNondetBool() {
+		m.E = &krpc.Error{Code: int(verifNondetI64()), Msg: "x"}
+	}
+	return m
+}
+
+func VerifC01_HostileReplies()      { verifC01Hostile(true) }
+func VerifC01_HostileRepliesQuick() { verifC01Hostile(false) }
+
+func verifC01Hostile(full bool) {
+	v := verifStartServer(verifSrvOpt{noSecurity: true})
+	dst := &net.UDPAddr{IP: net.IP{10, 0, 0, 7}, Port: 7007}
+	addr := NewAddr(dst)
+	target := verifIDInBucket(v.id, 4).Int160()
+	done := false
+	api := verifChoice(0, 3)
+	before := len(v.sock.sent)
+	go func() {
+		switch api {
+		case 0:
+			res := v.s.GetPeers(context.Background(), addr, target, verifNondetBool(), QueryRateLimiting{})
+			_ = res.TraversalQueryResult(addr.KRPC())
+			_ = res.ToError()
+		case 1:
+			res := v.s.FindNode(addr, target, QueryRateLimiting{})
+			_ = res.TraversalQueryResult(addr.KRPC())
+		case 2:
+			_ = v.s.Ping(dst).ToError()
+		case 3:
+			res := v.s.Get(context.Background(), addr, target.AsByteArray(), nil, QueryRateLimiting{})
+			_ = res.ToError()
+		}
+		done = true
+	}()
+	verifQuiesce()
+	if len(v.sock.sent) == before {
+		verifReach("unsent")
+		return
+	}
+	tid := v.sock.sent[before].msg.T
+	v.sock.deliver(verifEncode(verifHostileReply(v, tid, full), 70), dst)
+	verifAssert(done, "C01: the public query API returns once the (hostile) reply has arrived")
+	verifStillServes(v, "after a hostile reply to an in-flight query")
+	verifReach("end")
 }
